@@ -46,8 +46,15 @@ def run(ctx, rep):
         counts[key] = counts.get(key, 0) + 1
         row = EXIT_ALLOW.get(key)
         if row is None:
-            rep.ob("wmc-exit", f"{stable(b.key)}->{ck}", False,
-                   "process termination outside the allow table (a new exit site can return any status, or 0 without an output)", b.file, t["l"])
+            # an unlisted termination is harmless for this property iff it cannot yield status 0: process::abort, report_error_and_exit
+            # (whose own status is a checked non-zero constant) or exit(<non-zero constant>)
+            if ck in ("std::process::abort", "libwild::error::report_error_and_exit"):
+                rep.ob("wmc-exit", f"{stable(b.key)}->{ck}", True, "unlisted site, but this call always terminates with a non-zero status", b.file, t["l"])
+                continue
+            ok, detail = check_exit_constraint(P, b, bi, t, "const-nonzero")
+            rep.ob("wmc-exit", f"{stable(b.key)}->{ck}", ok,
+                   (f"unlisted site with a non-zero constant status ({detail})" if ok else
+                    f"process termination outside the allow table whose status is not a non-zero constant ({detail}): it can exit 0 without an output"), b.file, t["l"])
             continue
         _n, reason, constraint = row
         ok, detail = check_exit_constraint(P, b, bi, t, constraint)
